@@ -18,6 +18,10 @@ Definition c04_step (lower : str -> str) (c : cfg) (u : upolicy) (t0 : Z) (o : o
       (negb (o_served o) || ok) &&
       (* served without asking => nothing was due *)
       (negb (o_served o && match o_calls o with [] => true | _ => false end) || negb (due (o_now o) s)) &&
+      (* served without asking => the presented cookie was sealed (login, confirmed check, or
+         grace-served check) at most V ago: a check is due once the validity TTL has elapsed *)
+      (negb (o_served o && match o_calls o with [] => true | _ => false end) ||
+       match o_issued_at o with Some t => o_now o <=? t + c_V c + 1 | None => true end) &&
       (* refused (revoked, denied, group removed, expired...) => upstream not reached AND cookie cleared *)
       (ok || (negb (o_served o) && match o_cookie o with CCleared => true | _ => false end)) &&
       (* whatever is re-saved keeps the lifetime bound *)
